@@ -445,6 +445,10 @@ where
     fn call_first(&self, cx: &mut task::Context<'_> $(, $args: $args)*) -> Poll<Result<$ret_ty>> {
         let vm = self.value.vm();
         let mut context = vm.current_context();
+        let (level, stack_len) = {
+            let stack = context.stack();
+            (stack.get_frames().len(), stack.len())
+        };
         context.push(self.value.get_variant());
         $(
             $args.vm_push(&mut context)?;
@@ -453,7 +457,23 @@ where
             0.vm_push(&mut context).unwrap();
         }
         let args = count!($($args),*) + <$ret_ty as VmType>::EXTRA_ARGS;
-        let context =  ready!(vm.call_function(cx, context.into_owned(), args))?;
+        let context = match ready!(vm.call_function(cx, context.into_owned(), args)) {
+            Ok(context) => context,
+            Err(err) => {
+                // Unwind the frames and values of the failed call so that the thread can be used
+                // again (as `call_thunk_top` does for whole programs)
+                let mut context = vm.context();
+                {
+                    let stack = StackFrame::<crate::stack::State>::current(&mut context.stack);
+                    let _ = crate::thread::reset_stack(stack, level);
+                }
+                let left_over = context.stack.len().saturating_sub(stack_len);
+                if left_over > 0 {
+                    context.stack.pop_many(left_over);
+                }
+                return Poll::Ready(Err(err));
+            }
+        };
         let mut context = context.unwrap();
         let result = {
             let value = context.stack.last().unwrap();
